@@ -156,6 +156,7 @@ def interp_level(ctx: Ctx):
 
 def component_level(ctx: Ctx):
     rng = ctx.rng
+    mlines, mmeta = [], []
     for i in range(ctx.pick(20, 200)):
         nx = rng.choice([1, 2, 2, 3]); ny = rng.randint(1, 2); kpl = rng.randint(1, 2); na = rng.randint(0, 1)
         levels = [rng.randint(1, 2) for _ in range(nx)]
@@ -179,6 +180,7 @@ def component_level(ctx: Ctx):
             iset = comp.active_set if mode == 'train' else comp.active_set.union(comp.candidate_set)
             tree = comp.misc_coeff_train if mode == 'train' else comp.misc_coeff_test
             data_sets = {f'y{j}': [] for j in range(ny)}
+            mterms = []        # the same terms in protocol form (output y0) for the extracted misc_grad / misc_hess
             allg = [[Fraction(t) for t in td.x_grids[v]] for v in names]
             for alpha, beta in iset:
                 w = Fraction(float(tree[alpha, beta]))
@@ -189,6 +191,7 @@ def component_level(ctx: Ctx):
                 xt, yt = td.get(alpha, beta[:nx], y_vars=[f'y{j}' for j in range(ny)], skip_nan=True)
                 for j in range(ny):
                     data_sets[f'y{j}'].append((w, g, [Fraction(t) for t in np.asarray(yt[f'y{j}']).tolist()]))
+                mterms.append([q(w), lagr.state_grids(st, names), [q(t) for t in np.asarray(yt['y0']).tolist()]])
             for _ in range(3):
                 pk = [pick_point(rng, list(td.x_grids[v]), *doms[k]) for k, v in enumerate(names)]
                 x = [p for p, _ in pk]; kinds = [k for _, k in pk]
@@ -231,6 +234,32 @@ def component_level(ctx: Ctx):
                     c15.restore_wait(saved)
                 # band bookkeeping must be per term grid; use the union grid flags (conservative: any band -> loose tolerance)
                 derivative_checks(ctx, 'C11', case, allg, data_sets, xf, kinds, grad, hess, nx)
+                # correspondence: Component.gradient / hessian of y0 versus the extracted misc_grad / misc_hess on the same terms (small cases in
+                # the quick tier; points 2^-22 from a node are left to the oracle, finding F23)
+                size_ = sum(len(t_[2]) for t_ in mterms)
+                if mterms and 'close' not in kinds and (not ctx.quick or size_ <= 60):
+                    mlines.append('misc_grad ' + enc([mterms, [q(t) for t in x]])); mmeta.append((case, 'grad', grad['y0'], data_sets['y0'], allg))
+                    if hess is not None:
+                        mlines.append('misc_hess ' + enc([mterms, [q(t) for t in x]])); mmeta.append((case, 'hess', hess['y0'], data_sets['y0'], allg))
+    for (case, what, impl, terms_, allg_), mo in zip(mmeta, run_model(mlines, shards=16) if mlines else []):
+        ctx.count('component_derivatives_compared')
+        if isinstance(mo, ModelError):
+            ctx.disagree('C11:model-error', case, str(mo), None); continue
+        msep = [min([abs(a - b) for a in g for b in g if a != b] or [Fraction(1)]) for g in allg_]
+        ysum = sum(abs(w) * sum(abs(y) for y in ys) for w, g, ys in terms_) + 1
+        loose = any(k in ('near', 'band') for k in case['kinds'])
+        if what == 'grad':
+            for k, (gi, gm) in enumerate(zip(impl, mo)):
+                if not (gi == gi and abs(Fraction(gi) - unq(gm)) <= Fraction(1, 10 ** (5 if loose else 8)) * ysum * 16 / msep[k]):
+                    ctx.disagree('C11:Component.gradient', {**case, 'dim': k}, float(unq(gm)), gi); break
+        else:
+            bad = False
+            for m_, row in enumerate(impl):
+                for n_, hv in enumerate(row):
+                    if not (hv == hv and abs(Fraction(hv) - unq(mo[m_][n_])) <= Fraction(1, 10 ** (5 if loose else 8)) * ysum * 16 / (msep[m_] * msep[n_])):
+                        ctx.disagree('C11:Component.hessian', {**case, 'entry': (m_, n_)}, float(unq(mo[m_][n_])), hv); bad = True; break
+                if bad:
+                    break
 
 
 def run(ctx: Ctx):
